@@ -193,7 +193,7 @@ CHECKS["C01"] = dict(
     note="Assurance for the solver itself is per explored output (translation-validation style): nothing is claimed for unexplored problems. "
     "The oracle is the proved Lean checker, not ISLa's evaluator. The formula checked is the object the solver holds (concrete syntax -> formula "
     "is C07/C08). Numeric quantifiers: conclusive only within the bounded search (else counted as undecided). Solver timeouts / the 45 s wall "
-    "guard give no verdict.",
+    "guard give no verdict. Known findings: the start-symbol wrapper; universal numeric quantifiers are eliminated by finite instantiation (unsound).",
     technique="Lean 4 theorem about a solution certifier (soundness w.r.t. derivation-tree validity and the Sat specification) + certification of every tree returned by the real solver",
 )
 
@@ -262,7 +262,7 @@ CHECKS["C18"] = dict(
     design_ref="DESIGN.md section 7 C18",
     note="The parser, the evaluator and the repair / mutate procedures are not modelled here: the tree the real parser returns is an input of "
     "the model (checked to be a parse of the string); repair / mutate outputs are certified per call. Known findings: repair / mutate let "
-    "listed crash sites of their sub-solver escape; no support for numeric quantifiers in repair. Undecided reference verdicts / Z3 unknowns / "
+    "listed crash sites of their sub-solver escape (plus the 'will never leave the queue' assertion reached only through repair); no support for numeric quantifiers in repair. Undecided reference verdicts / Z3 unknowns / "
     "wall-guard stops give no verdict.",
     technique="Lean 4 theorems (expected check/parse outcomes as compositions of the verified recognizer, tree checker and evaluator) + differential comparison + certification of repair/mutate results",
 )
@@ -309,11 +309,11 @@ CHECKS["C07"] = dict(
     "(roundtrip_same_meaning), so an accepted round trip cannot change the verdict on any tree of any grammar; the checker is reflexive and "
     "acceptance is equality of the nameless data. Tie: parse -> unparse -> parse -> unparse on generated constraints in core syntax and in "
     "simplified syntax (free nonterminals incl. <start>, XPath axes, infix / prefix SMT, numeric quantifiers, literals with quote / backslash / "
-    "newline / non-ASCII, match expressions); the re-parse must be accepted, equal by ISLa's == or by the verified checker, unparse to the same "
+    "newline / non-ASCII, match expressions incl. terminals that need escaping and CR LF / form feed, one template per SMT-LIB operator the lexer accepts, a user-defined predicate with free-text arguments, the same operand repeated inside one propositional combination); the re-parse must be accepted, equal by ISLa's == or by the verified checker, unparse to the same "
     "text, and get the same verdicts from the verified reference evaluator on sampled trees.",
     design_ref="DESIGN.md section 7 C07",
     note="PARTIAL: concrete-syntax printing and parsing are validated per generated constraint (round trip), not proved; atoms are compared by "
-    "normalised text, quantifier types and match-expression shapes as opaque tags. Known finding: negated SMT atoms are re-normalised by Z3 "
+    "normalised text, quantifier types and match-expression shapes as opaque tags. Known findings: bound-variable names are not always globally unique after one parse, so a second round trip can rename them (alpha-equivalent, different text); negated SMT atoms are re-normalised by Z3 "
     "on every parse (equivalent atom, different text).",
     technique="Lean 4 theorem (alpha-equivalence of the two parsed formulas implies equal meaning under all interpretations) + round-trip differential on generated constraints",
 )
